@@ -209,7 +209,7 @@ def rerun_c13(inp):
 
 
 # ---------------------------------------------------------------------------------------------- C16: layer definitions
-LAYER_OPS = [("layer", "L1"), ("layer", "L2"), ("cm", "M1"), ("cm", "M2"), ("cm", ["M1"]), ("cm", ["M2"]), ("cm", ["M1", "M2"]),
+LAYER_OPS = [("layer", "L1"), ("layer", "L2"), ("cm", "M1"), ("cm", "M2"), ("cm", ["M1"]), ("cm", ["M2"]), ("cm", ["M2", "M1"]), ("cm", ["M2", "M2"]),
              ("re", "x.*"), ("with_layer", None)]
 
 
